@@ -59,6 +59,7 @@ Inductive opt_pred {A} (P : A -> Prop) : option A -> Prop :=
 
 Section Spec.
   Variable negpow : bool.
+  Variable rk : rank_oracle.
   Variable inv : inv_oracle.
   Variable spow : spow_oracle.
 
@@ -101,7 +102,7 @@ Section Spec.
   | LA_pow_nonneg : forall ka ke k n da e, integer_like ke e = true -> (0 <= exponent_Z e)%Z ->
       la_value Pow (Arr ka [n; n] da) (Num ke e) (Arr k [n; n] (mpow n da (Z.to_nat (exponent_Z e))))
   | LA_pow_neg : forall ka ke k n da e b, negpow = true -> integer_like ke e = true -> (exponent_Z e < 0)%Z ->
-      inv ka n da = Some b ->
+      rk ka n da = false -> inv ka n da = Some b ->
       la_value Pow (Arr ka [n; n] da) (Num ke e) (Arr k [n; n] (mpow n b (Z.to_nat (- exponent_Z e)))).
 
   (* chains as eval_sum / eval_product fold them, left to right *)
@@ -163,9 +164,18 @@ Definition data_eq (a b : list C) : Prop := Forall2 (fun x y => cre x == cre y /
 Definition inv_sound (inv : inv_oracle) : Prop :=
   forall k n d b, inv k n d = Some b ->
     length b = (n * n)%nat /\ data_eq (matmat n n n d b) (identity n) /\ data_eq (matmat n n n b d) (identity n).
+(* the contracts of the two numpy oracles behind negative powers:
+   rank_complete: the rank test flags every matrix that has a nonzero kernel vector;
+   inv_sound_regular: on matrices the rank test lets through, whatever np.linalg.inv returns is a two-sided inverse *)
+Definition inv_sound_regular (rk : rank_oracle) (inv : inv_oracle) : Prop :=
+  forall k n d b, rk k n d = false -> inv k n d = Some b ->
+    length b = (n * n)%nat /\ data_eq (matmat n n n d b) (identity n) /\ data_eq (matmat n n n b d) (identity n).
 (* a square matrix with a nonzero vector in its kernel *)
 Definition has_kernel_vector (n : nat) (d : list C) : Prop :=
   exists x, length x = n /\ Exists (fun c => cis_zero c = false) x /\ data_eq (matvec n n d x) (repeat c0 n).
+
+Definition rank_complete (rk : rank_oracle) : Prop :=
+  forall k n d, has_kernel_vector n d -> rk k n d = true.
 
 (* operands of the triple-vector theorem: numbers and vectors of any length *)
 Definition scalar_or_vector (v : val) : Prop :=
